@@ -18,7 +18,9 @@ def pal_plain(sym):
 
 
 def pal_quotes(sym):
-    return "%s'\"\\%s" % (sym, sym)
+    # quote characters, a backslash, and a colon followed by a word and preceded by a backslash (":name" is what a textual
+    # SQL statement takes for a bind parameter, "\\:" what it takes for an escaped colon)
+    return "%s'\"\\%s :%s \\:%s" % (sym, sym, sym, sym)
 
 
 def pal_sql(sym):
